@@ -153,3 +153,22 @@ for _np, _ng, _tiers in ((3, 4, ('quick', 'thorough')), (4, 6, ('thorough',))):
       stubs=['Grid::coordinateToRank -> arbitrary function of the coordinates: the symbolic answer R[k] of the first point k whose coordinates equal the argument (-1 and a counter if none)',
              'Db::getNDim -> 2; Db::getSampleNumber -> number of points; Db::isActive -> symbolic mask; Db::getCoordinate / getCoordinatesPerSampleInPlace -> symbolic coordinates of the point',
              'Db::getArray(iech, iuid) -> symbolic grid value V[iech] (asserts that the grid and the migrated attribute are addressed)'])
+
+
+# ---------------------------------------------------------------- C16.e.rot (derived grids of a ROTATED 2-D grid: harness/C16/derived_rot.cpp)
+for _tag, _defs, _dom in (('', {'VF_ISO': 1}, 'the same factor nmult in 1..3 in both directions'),
+                          ('.aniso', {}, 'different factors nmult[0] != nmult[1], each in 1..3')):
+    K('C16.e.rot' + _tag, property='C16', engine='symex', harness='C16/derived_rot.cpp', entries=['k_rot_multiple', 'k_rot_divider'], tus=_ROTTUS,
+      defines={'all': _defs}, symex_opts=_trig_opts, symex={'libm_exact': {'cos': _cos_native, 'sin': _sin_native}},
+      bounds={'quick': 'ndim = 2; rotation angle an arbitrary real in (-360, 360) degrees; x0, dx > 0 arbitrary reals; nx[d] in [1,1024]; %s; cell and point matching; '
+                       'every coarse node index in [0,1024]^2 / every sub-cell of every parent cell index in [0,1024]^2' % _dom},
+      timeout_ms={'quick': 60000, 'thorough': 600000}, validate={'quick': 20, 'thorough': 40}, validate_doubles='dyadic',
+      what='Grid::multiple, Grid::divider on a really constructed rotated Grid (Grid(ndim,nx,x0,dx), setRotationByAngle, Rotation, MatrixSquareGeneral as C16.d) and the derived Grid '
+           'built from their output (nx, dx, x0) with the parent\'s angle, as DbGrid::createCoarse / createRefine do: node counts and meshes; cell matching: the coarse node is the centre '
+           'of its block of nmult x nmult parent cells (mean of the opposite corner cell centres, and the parent\'s coordinate function at (nmult-1)/2 meshes from the first cell), '
+           'the refined node is the centre of its sub-cell (parent\'s coordinate function at -1/2 + (r+1/2)/nmult meshes from the parent node); point matching: the coarse node k is '
+           'parent node k*nmult, the refined node q*nmult is parent node q; all positions through Grid::indicesToCoordinateInPlace of the two grids',
+      out='3-D rotations; value transfer of DbGrid::createCoarse/createRefine; dilate on rotated grids; floating-point rounding; the index -> coordinate conversion itself (C16.d)',
+      assumptions=['real-arithmetic reading of the code', 'cos, sin: uninterpreted functions with cos(x)^2 + sin(x)^2 = 1 (and |.| <= 1)',
+                   'the derived grid carries the rotation angle of the parent (DbGrid::createCoarse / createRefine pass dbin->getAngles())'],
+      stubs=['cos/sin: uninterpreted + Pythagoras axiom (symex libm_axioms); on concrete arguments (validation runs) a rational point of the unit circle within 1e-12 of the libm values'])
